@@ -18,9 +18,22 @@ Fixpoint ty_eqb (a b : ty) {struct a} : bool :=
          match ys' with [] => true | y :: r => (fix mem (xs' : list ty) : bool := match xs' with [] => false | x :: r' => ty_eqb x y || mem r' end) xs && sup r end) ys
   | _, _ => false
   end.
+(* the code builds a SET of type strings at every Union: duplicates collapse and a one-element Union prints as its element *)
+Fixpoint ty_norm (t : ty) : ty :=
+  match t with
+  | TyList x => TyList (ty_norm x)
+  | TyUnion ts =>
+      let ts' := (fix go (ts : list ty) (acc : list ty) : list ty :=
+                    match ts with
+                    | [] => rev acc
+                    | x :: r => let x' := ty_norm x in if existsb (fun y => ty_eqb x' y) acc then go r acc else go r (x' :: acc)
+                    end) ts [] in
+      match ts' with [x] => x | _ => TyUnion ts' end
+  | _ => t
+  end.
 (* a one-element Union prints as its element; duplicates collapse (the code builds a set of strings) *)
 Definition ty_same (model observed : ty) : bool :=
-  ty_eqb model observed ||
+  ty_eqb (ty_norm model) (ty_norm observed) || ty_eqb model observed ||
   match model with
   | TyUnion (x :: r) => forallb (fun y => ty_eqb x y) r && ty_eqb x observed
   | _ => false
